@@ -23,10 +23,13 @@ def nameOf (b : VoteSet.BlockID) : Name := b.hash
     the part set being filled, like parts from peers (repaired); as found they are added unverified. -/
 structure Cfg where
   verifyOwnParts : Bool
+  /-- `addVote` ignores a straggler precommit when there is no last commit (height 1) instead of
+      calling AddVote on a nil VoteSet (PanicSanity) -/
+  guardNilLastCommit : Bool := true
   deriving Repr, DecidableEq
 
-def repaired : Cfg := ⟨true⟩
-def asFound : Cfg := ⟨false⟩
+def repaired : Cfg := ⟨true, true⟩
+def asFound : Cfg := ⟨false, false⟩
 
 inductive Step where
   | newHeight | newRound | propose | prevote | prevoteWait | precommit | precommitWait | commit
@@ -299,18 +302,20 @@ def enterCommit (n : Node) (h cr : Int) : Node :=
       tryFinalizeCommit n h
 
 
+/-- the proposal's signature verifies under the key of the round's proposer -/
+def proposalSigOk (n : Node) (signer : Nat) (sigBad : Bool) : Bool :=
+  !sigBad && (match proposerAddr n, n.vals.vals[signer]? with
+    | some pa, some v => pa == v.addr
+    | _, _ => false)
+
 /-- `defaultSetProposal` -/
 def setProposal (n : Node) (p : Proposal) (signer : Nat) (sigBad : Bool) : Node :=
   if n.proposal.isSome then n
   else if p.height ≠ n.height ∨ p.round ≠ n.round then n
   else if Step.commit ≤ n.step then n
   else if p.polRound ≠ -1 ∧ (p.polRound < 0 ∨ p.round ≤ p.polRound) then n
-  else
-    let sigok := !sigBad && (match proposerAddr n, n.vals.vals[signer]? with
-      | some pa, some v => pa == v.addr
-      | _, _ => false)
-    if !sigok then n
-    else { n with proposal := some p, proposalParts := some p.block, partsComplete := false }
+  else if !proposalSigOk n signer sigBad then n
+  else { n with proposal := some p, proposalParts := some p.block, partsComplete := false }
 
 /-- all parts of `block` arrive (`addProposalBlockPart` for each; only completion matters) -/
 def addParts (n : Node) (height : Int) (block : Name) (own : Bool) : Node :=
@@ -358,7 +363,7 @@ def addVote (n : Node) (v : VoteSet.Vote) (sigok : Bool) (peer : String) : Node 
     if !(n.step = .newHeight ∧ v.type = 2) then n
     else
       match n.lastCommit with
-      | none => emit n (.panic "addVote:nil-LastCommit")
+      | none => if n.cfg.guardNilLastCommit then n else emit n (.panic "addVote:nil-LastCommit")
       | some lc =>
         let (lc', o) := VoteSet.addVote VoteSet.repaired lc v sigok
         let n := { n with lastCommit := some lc' }
